@@ -487,23 +487,23 @@ theorem handleKillJob_good (jo : JobObj) (rj : Job) (tasks : List Task) (s : Sys
       exact Good.of_eq (fun q' => by rw [JobCtlPlan.handleKillJob_not _ jo rj tasks (hnk q'), hts])
         (enqueueAfter_good (jobKey jo) ts (some rj) s)
 
-theorem pendStep_good (key : String) (T : Int) (nd : List Task) (task : Task) (s : Sys) :
-    Good (fun t => JobCtlPlan.pendStep key T (t, nd) task) s := by
+theorem pendStep_good (key : String) (T : Int) (rj : Job) (nd : List Task) (task : Task) (s : Sys) :
+    Good (fun t => JobCtlPlan.pendStep key T rj (t, nd) task) s := by
   unfold JobCtlPlan.pendStep
-  by_cases h1 : task.ref.finishTimestamp.isSome = true
+  by_cases h1 : (pendRef rj task).finishTimestamp.isSome = true
   · exact Good.of_eq (fun q' => by simp only [h1, ↓reduceIte, if_true]) (Good.pure (fun _ => nd) s (fun _ => rfl))
-  by_cases h2 : task.ref.runningTimestamp.isSome = true
+  by_cases h2 : (pendRef rj task).runningTimestamp.isSome = true
   · exact Good.of_eq (fun q' => by simp only [h1, h2, Bool.false_eq_true, ↓reduceIte, if_true, if_false]) (Good.pure (fun _ => nd) s (fun _ => rfl))
-  by_cases h3 : JobCtlPlan.pendDeadline T task > s.clock
-  · refine Good.of_eq (fun q' => ?_) (enqueueAfter_good key (JobCtlPlan.pendDeadline T task) nd s)
-    have : JobCtlPlan.pendDeadline T task > (setQ s q').clock := h3
+  by_cases h3 : JobCtlPlan.pendDeadline T (pendRef rj task) > s.clock
+  · refine Good.of_eq (fun q' => ?_) (enqueueAfter_good key (JobCtlPlan.pendDeadline T (pendRef rj task)) nd s)
+    have : JobCtlPlan.pendDeadline T (pendRef rj task) > (setQ s q').clock := h3
     simp only [h1, h2, this, Bool.false_eq_true, ↓reduceIte, if_true, if_false]
   by_cases h4 : task.deletionTimestamp.isSome = true
   · refine Good.of_eq (fun q' => ?_) (Good.pure (fun _ => nd) s (fun _ => rfl))
-    have : ¬ JobCtlPlan.pendDeadline T task > (setQ s q').clock := h3
+    have : ¬ JobCtlPlan.pendDeadline T (pendRef rj task) > (setQ s q').clock := h3
     simp only [h1, h2, this, h4, Bool.false_eq_true, ↓reduceIte, if_true, if_false]
   · refine Good.of_eq (fun q' => ?_) (Good.pure (fun _ => nd ++ [task]) s (fun _ => rfl))
-    have : ¬ JobCtlPlan.pendDeadline T task > (setQ s q').clock := h3
+    have : ¬ JobCtlPlan.pendDeadline T (pendRef rj task) > (setQ s q').clock := h3
     simp only [h1, h2, this, h4, Bool.false_eq_true, ↓reduceIte, if_true, if_false]
 
 /-- the continuation of `handlePendingTasks` after its loop -/
@@ -537,9 +537,9 @@ theorem handlePendingTasks_good (jo : JobObj) (rj : Job) (tasks : List Task) (s 
       have : getPendingTimeout rj (setQ s q').cfg = some T := hT
       rw [this]
       simp only [h0, if_true]
-    · have hf := Good.foldl (JobCtlPlan.pendStep (jobKey jo) T) (pendStep_good (jobKey jo) T) tasks [] s
-      refine Good.of_eq (g := fun t => pendK rj (tasks.foldl (JobCtlPlan.pendStep (jobKey jo) T) (t, [])).2
-          (tasks.foldl (JobCtlPlan.pendStep (jobKey jo) T) (t, [])).1) (fun q' => ?_)
+    · have hf := Good.foldl (JobCtlPlan.pendStep (jobKey jo) T rj) (pendStep_good (jobKey jo) T rj) tasks [] s
+      refine Good.of_eq (g := fun t => pendK rj (tasks.foldl (JobCtlPlan.pendStep (jobKey jo) T rj) (t, [])).2
+          (tasks.foldl (JobCtlPlan.pendStep (jobKey jo) T rj) (t, [])).1) (fun q' => ?_)
         (Good.bind (h := pendK rj) hf (pendK_good rj _ _))
       rw [JobCtlPlan.handlePendingTasks_eq]
       have : getPendingTimeout rj (setQ s q').cfg = some T := hT
